@@ -95,7 +95,7 @@ void FivePointsNumericalDerivative::updateDerivatives(const ParameterList& param
     if (function2_)
       function2_->enableSecondOrderDerivatives(computeD2_);
     if (functionChanged)
-      function_->setParameters(parameters.createSubList(lastVar));
+      function_->setParameters(parameters);
   }
   else
   {
